@@ -6,6 +6,9 @@ Sources (later files override earlier ones, cell by cell):
   mutants/matrix_partial_full.tsv  partial cross matrix, checks as of round 5 (stopped: too slow next to other jobs)
   mutants/own_r1to6.tsv            every stored change against the check of its own property, current checks
   mutants/own_r7.tsv               the same for round 7
+  mutants/own_all.tsv              every stored change of rounds 1-8 and every regression patch against its own check, checks as of
+                                   round 8; own_all_recheck.tsv: the one that had gone quiet (C05-f), after the correction
+  mutants/own_r9.tsv               round 9 against the checks as strengthened after its first pass
 A blank cell = that (change, check) pair was not run."""
 import collections, os, re
 by=collections.OrderedDict()
@@ -18,11 +21,11 @@ def load(f):
         name,c,code,nv=l.split('\t')
         if c=='-': continue
         by.setdefault(name,{})[c]=code
-for f in ['matrix_r123.tsv','matrix_partial_full.tsv','own_r1to6.tsv','own_r7.tsv']:
+for f in ['matrix_r123.tsv','matrix_partial_full.tsv','own_r1to6.tsv','own_r7.tsv','own_all.tsv','own_all_recheck.tsv','own_r9.tsv']:
     load(f)
 def key(n):
-    m=re.match(r'(C\d\d)-([a-z])$',n)
-    return (0,m.group(1),m.group(2)) if m else (1,n,'')
+    m=re.match(r'(C\d\d)-([a-z]+)$',n)
+    return (0,m.group(1),len(m.group(2)),m.group(2)) if m else (1,n,0,'')
 names=sorted(by,key=key)
 checks=["C%02d"%i for i in range(1,20)]
 lines=["| change | "+" | ".join(c[1:] for c in checks)+" |","|---|"+"|".join("--" for _ in checks)+"|"]
